@@ -3,7 +3,7 @@ from core import report, paths
 from core.report import Rule
 from core.sm9 import Repo, U256
 from core.terms import strip, alts, walk, show
-from . import shared, conv2 as convert, profile, ladder
+from . import shared, conv2 as convert, profile, ladder, field
 from .shared import loc_of
 
 R1_64 = range(1, 65)
@@ -47,7 +47,7 @@ def rule_siblings(results):
     return R.finish()
 
 
-def rule_setbit(repo):
+def rule_setbit(repo, prop="C13"):
     F = repo.F
     R = Rule("R-SETBIT", "set_bit operates on the canonical (non-Montgomery) value and re-reduces; the public wrapper forwards (bit, to) unchanged; "
              "U256::set_bit sets/clears bit n&63 of limb n>>6 for n<256", floor=4)
@@ -63,7 +63,7 @@ def rule_setbit(repo):
         b = F.bodies.get(path)
         R.instance()
         if b is None:
-            R.fail_closed("C13:setbit:%s:anchor" % path, "%s not found" % path)
+            R.fail_closed("%s:setbit:%s:anchor" % (prop, path), "%s not found" % path)
             continue
         fin = repo.tb(b).final_value(("deref", 1))
         ok = False
@@ -75,23 +75,23 @@ def rule_setbit(repo):
                 canon = shared.is_canon_conv(x[2][0], ap) == ("init", ("deref", 1))
                 fwd = x[2][1] == ("param", 2) and x[2][2] == ("param", 3)
                 ok = canon and fwd
-        R.check(ok, "C13:setbit:%s" % path, "%s does not set the bit on the canonical value and re-reduce: %s" % (path, why), b.file_line(), path,
+        R.check(ok, "%s:setbit:%s" % (prop, path), "%s does not set the bit on the canonical value and re-reduce: %s" % (path, why), b.file_line(), path,
                 sample={"fn": path, "final_self": why})
     w = F.bodies.get("crate::Fr::set_bit")
     R.instance()
     if w is None:
-        R.fail_closed("C13:setbit:wrapper", "crate::Fr::set_bit not found")
+        R.fail_closed("%s:setbit:wrapper" % prop, "crate::Fr::set_bit not found")
     else:
         fin = repo.tb(w).final_value(("deref", 1))
         ok = fin[0] == "update" and fin[2] == (("f", 0),) and fin[3][0] == "mutcall" and fin[3][1].d == "crate::fields::fp::Fr::set_bit" and fin[3][2][1:] == (("param", 2), ("param", 3))
-        R.check(ok, "C13:setbit:crate::Fr::set_bit", "Fr::set_bit does not forward to fields::Fr::set_bit(bit, to): %s" % show(fin, maxdepth=4)[:200], w.file_line(), w.rec["path"],
+        R.check(ok, "%s:setbit:crate::Fr::set_bit" % prop, "Fr::set_bit does not forward to fields::Fr::set_bit(bit, to): %s" % show(fin, maxdepth=4)[:200], w.file_line(), w.rec["path"],
                 sample={"wrapper": show(fin, maxdepth=3)[:160]})
     # U256::set_bit: for every bit index, over opaque limbs — exactly one limb changes, by OR with / AND with the complement of
     # the single-bit mask 1 << (n & 63) of limb n >> 6; indices ≥ 256 change nothing and answer false
     u = F.bodies.get("crate::u256::U256::set_bit")
     R.instance()
     if u is None:
-        R.fail_closed("C13:setbit:U256", "U256::set_bit not found")
+        R.fail_closed("%s:setbit:U256" % prop, "U256::set_bit not found")
     else:
         from core.bytex import Machine, T, Tup, Adt, Ref
         bad = []
@@ -103,7 +103,7 @@ def rule_setbit(repo):
             for to in (False, True):
                 limbs = Tup([T("limb", j) for j in range(4)])
                 me = Adt("crate::u256::U256", "U256", [Adt(inner_head, inner_head.split("::")[-1], [limbs])])
-                m = Machine(F, lambda cb: (cb.rec.get("span") or {}).get("file") == (u.rec.get("span") or {}).get("file"))
+                m = Machine(F, field.int_layer_policy(F))
                 outs = m.run(u, [Ref(0, 0), n, to], holders=[me])
                 rows += 1
                 if len(outs) != 1 or outs[0].kind != "return" or outs[0].pc:
@@ -118,19 +118,20 @@ def rule_setbit(repo):
                     continue
                 want = list(limbs)
                 if n < 256:
+                    from core import bitprov
                     j, k = n >> 6, n & 63
-                    ok_val = bool(o.value) is True
+                    ok_val = o.value is True or o.value == 1
                     g = got[j]
-                    okl = isinstance(g, T) and g[0] == "binop" and g[2] == limbs[j] and (
-                        (to and g[1] == "BitOr" and g[3] == (1 << k)) or
-                        (not to and g[1] == "BitAnd" and isinstance(g[3], int) and (g[3] % (1 << 64)) == ((1 << 64) - 1 - (1 << k))))
-                    rest = all(got[i] == limbs[i] for i in range(4) if i != j)
+                    have = bitprov.bits(g)
+                    expect = [("L", j, i, False) if i != k else int(to) for i in range(64)]
+                    okl = have == expect
+                    rest = all(got[i] == limbs[i] or bitprov.bits(got[i]) == bitprov.bits(limbs[i]) for i in range(4) if i != j)
                     if not (ok_val and okl and rest):
                         bad.append((n, to, "limb %d becomes %r, returns %r" % (j, g, o.value)))
                 else:
                     if bool(o.value) is not False or got != want:
                         bad.append((n, to, "index ≥ 256 returns %r / changes limbs" % (o.value,)))
-        R.check(not bad, "C13:setbit:crate::u256::U256::set_bit", "U256::set_bit does not set/clear exactly bit n&63 of limb n>>6 (false and untouched for n ≥ 256): %s" % bad[:3],
+        R.check(not bad, "%s:setbit:crate::u256::U256::set_bit" % prop, "U256::set_bit does not set/clear exactly bit n&63 of limb n>>6 (false and untouched for n ≥ 256): %s" % bad[:3],
                 u.file_line(), u.rec["path"], sample={"bit_indices_x_polarity": rows, "limbs": "opaque", "all_rows_match": not bad})
     return R.finish()
 
